@@ -61,6 +61,10 @@ CHECKS = {
         technique='property-based frame-condition testing: generated (entry point, configuration) pairs; canonical form and path->identity map of the input compared before and after each call',
         text='47 read-only / copy-returning entry points (build, ==, printers, graphviz, JSON/YAML dump, build_diff/apply_diff arguments, validators, three code generators, selections, grep, cast, copy_with, deepcopy_with incl. TaggedValue overrides, materialize_tags in all modes, trimming helpers, transforms, tag queries) are called on generated DAGs with sharing, tags (also on empty Buildables), long values, positional arguments and TaggedValues; the input must have the same canonical form and the same object at every path afterwards, whether the call returned or raised.',
         note='Trusted: harness/canon.py; the API table in props/c17.py defines what is covered. History is excluded as the property states.'),
+    'C18': dict(
+        technique='property-based round-trip and differential testing: generated configurations -> printed paths -> flag parser -> reference resolution / reference setter; generated directive sequences against sequential application in Python; rendered call expressions against their structured source',
+        text='Three generated case kinds: (1) configurations in the stated domain (dict keys incl. empty, punctuation, escapes, non-ASCII, ints; literal leaves) whose flattened printers must list exactly the reference leaves once, each printed path must parse and resolve to its leaf, and writing back the same / a different literal must change nothing / exactly what a reference setter changes; (2) base-config + set:/fiddler: directive sequences (mutating and new-config-returning fiddlers, non-commuting pairs) split over several parse() calls with intermediate .value reads, compared with in-order application in Python, plus the config_str serializer round trip; (3) CallExpression.parse of rendered calls.',
+        note='Trusted: reference leaf walk, render(), ref_set() in props/c18.py; ast.literal_eval as the literal reader. atheris-driven variant of the same strategies is not registered (see DESIGN section 8).'),
 }
 
 PENDING = {}
